@@ -145,6 +145,12 @@ type externalCommand struct {
 	exe           string
 	args          []string
 	combineOutput bool
+	// The error of the earliest call of run() among the failed ones. errgroup.Group keeps the error
+	// which happened first. It depends on timing of the processes
+	mu     sync.Mutex
+	numRun int
+	errIdx int
+	err    error
 }
 
 // run runs the command with given arguments and stdin. The callback function is called after the
@@ -158,11 +164,31 @@ func (cmd *externalCommand) run(args []string, stdin string, callback func([]byt
 		args = allArgs
 	}
 	exec := &cmdExecution{cmd.exe, args, stdin, cmd.combineOutput}
-	cmd.proc.run(&cmd.eg, exec, callback)
+	idx := cmd.numRun
+	cmd.numRun++
+	cmd.proc.run(&cmd.eg, exec, func(stdout []byte, err error) error {
+		err = callback(stdout, err)
+		if err != nil {
+			cmd.mu.Lock()
+			if cmd.err == nil || idx < cmd.errIdx {
+				cmd.err, cmd.errIdx = err, idx
+			}
+			cmd.mu.Unlock()
+		}
+		return err
+	})
 }
 
 // wait waits until all goroutines for this command finish. Note that it does not wait for
 // goroutines for other commands.
 func (cmd *externalCommand) wait() error {
-	return cmd.eg.Wait()
+	if err := cmd.eg.Wait(); err != nil {
+		cmd.mu.Lock()
+		defer cmd.mu.Unlock()
+		if cmd.err != nil {
+			return cmd.err
+		}
+		return err
+	}
+	return nil
 }
